@@ -69,13 +69,14 @@ def largest(chunks):
     return out
 
 
-def inst_plan(mo, mn, deg, smax, itemsize=1, thr_max=4, lim_max=16):
+def inst_plan(mo, mn, deg, smax, itemsize=1, thr_max=4, lim_max=16, empty_axes=()):
+    """empty_axes: axes of length zero (one zero-width chunk before and after; the array is empty)"""
     nd = len(mo)
 
     def body(E):
         w, st = W(E)
-        old = tuple(sym_chunks(E, f"o{a}_", m) for a, m in enumerate(mo))
-        new = tuple(sym_chunks(E, f"n{a}_", m) for a, m in enumerate(mn))
+        old = tuple((0,) if a in empty_axes else sym_chunks(E, f"o{a}_", m) for a, m in enumerate(mo))
+        new = tuple((0,) if a in empty_axes else sym_chunks(E, f"n{a}_", m) for a, m in enumerate(mn))
         for a in range(nd):
             for c in old[a] + new[a]:
                 E.assume(c <= smax)
@@ -95,7 +96,8 @@ def inst_plan(mo, mn, deg, smax, itemsize=1, thr_max=4, lim_max=16):
         for k, s in enumerate(steps):
             if len(s) != nd:
                 return False
-            E.ensure("same-shape-positive", AND(*[AND(sum(s[a]) == sum(old[a]), *[c >= 1 for c in s[a]]) for a in range(nd)]))
+            E.ensure("same-shape-positive", AND(*[AND(sum(s[a]) == sum(old[a]), *[c >= (0 if a in empty_axes else 1) for c in s[a]])
+                                                  for a in range(nd)]))
             by_bd = any(s is t for t in inserted)
             E.ensure("block-size-budget", largest(s) <= budget, site="_bound_degree" if by_bd else "size-planner")
         # the crosswalk between consecutive steps
@@ -103,15 +105,16 @@ def inst_plan(mo, mn, deg, smax, itemsize=1, thr_max=4, lim_max=16):
         for s in steps:
             res = w.fn(R, "old_to_new")(prev, s)
             for a in range(nd):
-                crosswalk_ok(E, prev[a], s[a], res[a], label="crosswalk")
+                if a not in empty_axes:
+                    crosswalk_ok(E, prev[a], s[a], res[a], label="crosswalk")
             prev = s
 
     def api(values):
         import dask
         from dask_array._rechunk import _largest_block_size, plan_rechunk
 
-        old = tuple(tuple(values[f"o{a}_{i}"] for i in range(m)) for a, m in enumerate(mo))
-        new = tuple(tuple(values[f"n{a}_{i}"] for i in range(m)) for a, m in enumerate(mn))
+        old = tuple((0,) if a in empty_axes else tuple(values[f"o{a}_{i}"] for i in range(m)) for a, m in enumerate(mo))
+        new = tuple((0,) if a in empty_axes else tuple(values[f"n{a}_{i}"] for i in range(m)) for a, m in enumerate(mn))
         with dask.config.set({"array.rechunk.degree-limit": deg}):
             steps = plan_rechunk(old, new, itemsize, threshold=values["threshold"], block_size_limit=values["limit"])
         big = max(values["limit"] / itemsize, _largest_block_size(old), _largest_block_size(new))
@@ -124,6 +127,8 @@ def inst_plan(mo, mn, deg, smax, itemsize=1, thr_max=4, lim_max=16):
     cost = 1
     for m in mo + mn:
         cost *= m + 1
+    if empty_axes:
+        nm += f",empty axes {tuple(empty_axes)}"
     return Instance(f"plan_rechunk[{nm},degree={deg},sizes<={smax},itemsize={itemsize}]", body,
                     dict(old_blocks=mo, new_blocks=mn, degree_limit=deg, max_size=smax, itemsize=itemsize),
                     unit="plan_rechunk", api_replay=api, cost=cost * (2 if deg < 100 else 1), wall_s=900, timeout_ms=30000,
@@ -141,6 +146,7 @@ def instances(tier):
         out.append(inst_plan((2, 2), (3, 2), 2, 3))
         out.append(inst_plan((3, 1), (1, 3), 2, 3))
         out.append(inst_plan((2, 1), (1, 2), 100, 3, itemsize=3, lim_max=24))
+        out.append(inst_plan((1, 1, 2), (1, 2, 1), 100, 3, empty_axes=(0,)))  # an empty array still gets a plan
         out.append(inst_plan((5,), (3,), 2, 3))  # a 1-d merge deep enough for the degree pass to insert steps
         for mo, mn in ((1, 2), (2, 1), (2, 2), (2, 3), (3, 2), (3, 3)):
             out.append(inst_crosswalk(mo, mn))
@@ -163,6 +169,8 @@ def instances(tier):
                 out.append(inst_crosswalk(mo, mn))
                 if mo <= 4 and mn <= 4:
                     out.append(inst_crosswalk(mo, mn, lo=0))
+        out.append(inst_plan((1, 1, 2), (1, 2, 1), 100, 4, empty_axes=(0,)))
+        out.append(inst_plan((1, 2, 2), (1, 1, 3), 2, 3, empty_axes=(0,)))
         out.append(inst_plan((2, 1), (1, 2), 100, 4, itemsize=3, lim_max=48))
         out.append(inst_plan((2, 1), (1, 2), 100, 5, itemsize=8, lim_max=64))
         out.append(inst_plan((2, 2), (1, 2), 2, 5, itemsize=8, lim_max=64))
